@@ -1,1 +1,10 @@
 import SwcVerif.Props.C07
+#print axioms C07.rootPath_spec
+#print axioms C07.redirect_pids
+#print axioms C07.redirect_edges
+#print axioms C07.redirect_root
+#print axioms C07.redirect_types
+#print axioms C07.redirect_at_root
+#print axioms C07.translate_coincides
+#print axioms C07.cat_separate
+#print axioms C07.cat_merged
